@@ -1,95 +1,65 @@
 //! C38 — validation is deterministic and repeatable.
 //!
-//!   c38 report <format> <file>        -> prints the canonical report of one read (used to get a
-//!                                        fresh-process read; no other state in that process)
-//!   c38 <tier> <seed> <outdir>        -> the run
+//!   c38 report <format> <file>             -> canonical report of one read, base settings (fresh process)
+//!   c38 report2 <variant> <format> <file>  -> the same with the named settings variant
+//!   c38 <tier> <seed> <outdir>             -> the run
 //!
-//! Model-level requests reuse the C24 state model (`lean/C2paModel/Model/C24.lean`, driver drv_c24
-//! is not used here): C38's own line protocol is the *history* form
-//!   C38 hist ops=<op,op,…> probe=<op>   ->  <output of probe after the history>|<output of probe alone>
-//! answered by the same model (handled in Model/C38.lean, which only wraps Model/C24).
+//! Model-level requests (history form, answered by Model/C38.lean which wraps the C24 state model):
+//!   C38 hist ops=<op,op,…> probe=<op> nctx=<n>  ->  <output of probe after the history>|<output of probe alone>
 //!
-//! Implementation level (oracle): random sequences of sign / read / ingredient import / archive
-//! save+restore operations in ONE process with several contexts and legacy thread-local
-//! settings writes in between; every produced asset is read (a) right after it was produced,
-//! (b) again at the end of the sequence, (c) in a fresh process; the three canonical reports
-//! must be identical. Signing the same source at the start and at the end of the sequence must
-//! give the same canonical report (instance ids / labels / times abstracted).
+//! Implementation level (oracle):
+//! 1. random sequences of sign / read / ingredient import / archive save+restore operations in ONE
+//!    process with legacy thread-local settings writes in between; every produced asset is read
+//!    right after it was produced, again at the end of the sequence, and in a fresh process; the
+//!    three canonical reports must be identical; the same source signed first and last must give
+//!    the same abstracted report.
+//! 2. settings-variation histories: many reads ON THE SAME THREAD of a few assets, each with a
+//!    context whose settings differ from the previous read's in ONE setting (every trust setting
+//!    separately: trust_anchors, user_anchors, trust_config, allowed_list; verify / core settings);
+//!    every report must equal the report of a fresh process reading the same bytes with the same
+//!    settings.
+//! 3. replays of the Lean witnesses: the legacy API is history-dependent by design
+//!    (`tls_history_visible`); a context-based read of the crafted BMFF asset depends on an earlier
+//!    legacy settings write of its thread (`context_read_depends_on_tls`, open finding).
+//! 4. hash-order regression case: three manifests, two time-stamp assertions (local RFC 3161
+//!    authority behind the context's resolver) naming the same first manifest, one token inside and
+//!    one outside the first signer's validity; the same bytes are read 16/40 times in process and
+//!    6/12 times in fresh processes: all reports must be identical (they were not before
+//!    fixes/C38-timestamp-assertion-earliest-wins.patch).
 
 #![allow(deprecated)]
 
-use std::{io::Cursor, process::Command};
+#[path = "../c24_common.rs"]
+mod cc;
+#[allow(dead_code)]
+#[path = "../pki.rs"]
+mod pki;
 
-use c2pa::{Builder, Context, EphemeralSigner, Reader, Settings};
-use vh::common::{canon_json, fixtures, guarded, main_with, scratch, Rng, Run};
+use std::{
+    io::{Cursor, Read},
+    process::Command,
+    sync::Arc,
+};
+
+use c2pa::{
+    http::{
+        http::{header::CONTENT_TYPE, Request, Response},
+        HttpResolverError, SyncHttpResolver,
+    },
+    Builder, BuilderIntent, Context, EphemeralSigner, Reader, Settings, Signer, SigningAlg,
+};
+use vh::common::{fixtures, guarded, main_with, scratch, Rng, Run};
 use vh::sign::{definition, unsigned_sources};
 
-fn settings_json() -> &'static str {
-    r#"{"verify":{"remote_manifest_fetch":false,"ocsp_fetch":false}}"#
+fn report_with(settings: &str, fmt: &str, data: &[u8]) -> String {
+    match Context::new().with_settings(settings) {
+        Ok(ctx) => cc::report_of(Reader::from_context(ctx).with_stream(fmt, Cursor::new(data.to_vec()))),
+        Err(e) => format!("ctx-error:{e:?}"),
+    }
 }
 
 fn report(fmt: &str, data: &[u8]) -> String {
-    let ctx = match Context::new().with_settings(settings_json()) {
-        Ok(c) => c,
-        Err(e) => return format!("ctx-error:{e:?}"),
-    };
-    match Reader::from_context(ctx).with_stream(fmt, Cursor::new(data.to_vec())) {
-        Ok(r) => {
-            let mut v: serde_json::Value = serde_json::from_str(&r.json()).unwrap_or_default();
-            if let Some(vr) = v.get_mut("validation_results").and_then(|x| x.as_object_mut()) {
-                vr.remove("validationTime");
-            }
-            format!("{:?}:{}", r.validation_state(), canon_json(&v))
-        }
-        Err(e) => format!("err:{}", format!("{e:?}").chars().take_while(|c| c.is_ascii_alphanumeric()).collect::<String>()),
-    }
-}
-
-/// Report with everything that legitimately differs between two signings abstracted away.
-fn abstract_report(rep: &str) -> String {
-    // replace urn:c2pa:<uuid>, xmp:iid:<uuid>, RFC3339 times, base64 hashes/signature-dependent values
-    let mut out = String::with_capacity(rep.len());
-    let b = rep.as_bytes();
-    let mut i = 0;
-    let is_hex = |c: u8| c.is_ascii_hexdigit() || c == b'-';
-    while i < b.len() {
-        if rep[i..].starts_with("urn:c2pa:") || rep[i..].starts_with("xmp:iid:") || rep[i..].starts_with("urn:uuid:") {
-            let pre = if rep[i..].starts_with("xmp:iid:") { 8 } else { 9 };
-            out.push_str(&rep[i..i + pre]);
-            i += pre;
-            while i < b.len() && is_hex(b[i]) {
-                i += 1;
-            }
-            out.push_str("<id>");
-        } else {
-            out.push(b[i] as char);
-            i += 1;
-        }
-    }
-    // drop volatile members by key
-    let mut v: serde_json::Value = match out.find(':').and_then(|k| serde_json::from_str(&out[k + 1..]).ok()) {
-        Some(v) => v,
-        None => return out,
-    };
-    fn scrub(v: &mut serde_json::Value) {
-        match v {
-            serde_json::Value::Object(m) => {
-                for k in ["time", "hash", "cert_serial_number", "instance_id", "instanceID", "pad", "pad2", "signature", "when"] {
-                    if m.contains_key(k) {
-                        m.insert(k.to_string(), serde_json::Value::String("<volatile>".into()));
-                    }
-                }
-                for (_, x) in m.iter_mut() {
-                    scrub(x);
-                }
-            }
-            serde_json::Value::Array(a) => a.iter_mut().for_each(scrub),
-            _ => {}
-        }
-    }
-    scrub(&mut v);
-    let state = out.split(':').next().unwrap_or("").to_string();
-    format!("{state}:{}", canon_json(&v))
+    report_with(&cc::base_settings(), fmt, data)
 }
 
 fn sign(ctx_settings: &str, fmt: &str, src: &[u8], ingredient: Option<(&str, &[u8])>, via_archive: bool) -> c2pa::Result<Vec<u8>> {
@@ -114,13 +84,17 @@ fn sign(ctx_settings: &str, fmt: &str, src: &[u8], ingredient: Option<(&str, &[u
     Ok(out.into_inner())
 }
 
-fn fresh_process_report(fmt: &str, path: &std::path::Path) -> String {
+fn child(args: &[&str]) -> String {
     let exe = std::env::current_exe().expect("exe");
-    match Command::new(exe).arg("report").arg(fmt).arg(path).output() {
+    match Command::new(exe).args(args).output() {
         Ok(o) if o.status.success() => String::from_utf8_lossy(&o.stdout).trim_end().to_string(),
         Ok(o) => format!("child-failed:{}", o.status),
         Err(e) => format!("child-error:{e}"),
     }
+}
+
+fn fresh_process_report(fmt: &str, path: &std::path::Path) -> String {
+    child(&["report", fmt, &path.to_string_lossy()])
 }
 
 fn main() {
@@ -130,11 +104,377 @@ fn main() {
         println!("{}", report(&args[2], &data));
         return;
     }
+    if args.len() >= 5 && args[1] == "report3" {
+        let data = std::fs::read(&args[4]).expect("read asset");
+        let s = std::fs::read_to_string(&args[2]).expect("settings file");
+        println!("{}", report_with(&s, &args[3], &data));
+        return;
+    }
+    if args.len() >= 5 && args[1] == "report2" {
+        let data = std::fs::read(&args[4]).expect("read asset");
+        let s = cc::variant(&args[2]).expect("variant");
+        println!("{}", report_with(&s, &args[3], &data));
+        return;
+    }
     main_with("C38", run);
 }
 
+fn short(s: &str) -> &str {
+    &s[..s.len().min(90)]
+}
+
+/// Part 2: reads on one thread whose settings change one setting at a time, against fresh-process references.
+fn settings_histories(run: &mut Run, rng: &mut Rng, dir: &std::path::Path) {
+    let jpg = std::fs::read(fixtures().join("IMG_0003.jpg")).unwrap_or_default();
+    let mut assets: Vec<(String, String, Vec<u8>)> = vec![]; // name, fmt, bytes
+    for alg in ["es256", "ed25519"] {
+        let s = format!(r#"{{"verify":{{{}}},{}}}"#, cc::NOFETCH, cc::signer_member(alg));
+        match cc::sign_with_settings(&s, "image/jpeg", &jpg, "c38-fixture-signed") {
+            Ok(a) => assets.push((format!("signed-{alg}"), "image/jpeg".into(), a)),
+            Err(e) => run.notes.push(format!("sign with fixture credential {alg} failed: {e:?}")),
+        }
+    }
+    for name in ["CA.jpg", "C.jpg"] {
+        if let Ok(d) = std::fs::read(fixtures().join(name)) {
+            assets.push((name.to_string(), "image/jpeg".into(), d));
+        }
+    }
+    if let Ok(a) = sign(&cc::base_settings(), "image/jpeg", &jpg, None, false) {
+        assets.push(("signed-ephemeral".into(), "image/jpeg".into(), a));
+    }
+    let variants = cc::variants();
+    let valid = variants.iter().all(|(_, s)| Settings::new().with_json(s).is_ok());
+    run.obligations.insert("settings-variants-are-valid-settings".to_string(), valid);
+    let paths: Vec<std::path::PathBuf> = assets
+        .iter()
+        .enumerate()
+        .map(|(i, (_, _, d))| {
+            let p = dir.join(format!("v{i}.bin"));
+            let _ = std::fs::write(&p, d);
+            p
+        })
+        .collect();
+    let mut reference: std::collections::HashMap<(usize, usize), String> = std::collections::HashMap::new();
+    let steps = if run.thorough() { 700 } else { 120 };
+    let mut prev: Option<(usize, usize)> = None;
+    let mut distinct_outcomes: std::collections::HashSet<String> = std::collections::HashSet::new();
+    let mut compared = 0usize;
+    for step in 0..steps {
+        if assets.is_empty() {
+            break;
+        }
+        // stay on the same asset most of the time so that consecutive reads differ in ONE setting
+        let a = match prev {
+            Some((a, _)) if rng.chance(3, 4) => a,
+            _ => rng.below(assets.len() as u64) as usize,
+        };
+        let v = rng.below(variants.len() as u64) as usize;
+        let (name, fmt, data) = &assets[a];
+        let got = report_with(&variants[v].1, fmt, data);
+        let want = reference.entry((a, v)).or_insert_with(|| child(&["report2", variants[v].0, fmt, &paths[a].to_string_lossy()])).clone();
+        let idx = run.reqs.len().saturating_sub(1);
+        if want.starts_with("child-") {
+            run.fail(idx, "fresh-process-read-failed", format!("{name} / {}: {want}", variants[v].0));
+        } else if got != want {
+            let before = prev.map(|(pa, pv)| format!("{} / {}", assets[pa].0, variants[pv].0)).unwrap_or_else(|| "-".into());
+            run.fail(
+                idx,
+                "same-bytes-same-settings-different-report-after-history",
+                format!("step {step}: {name} read with settings `{}` right after [{before}] gives {} … but a fresh process gives {} …", variants[v].0, short(&got), short(&want)),
+            );
+        } else {
+            compared += 1;
+            if let Some((pa, pv)) = prev {
+                if pa == a && pv != v {
+                    run.nontrivial(format!("variant-switch {a} {pv}->{v}"));
+                }
+            }
+        }
+        distinct_outcomes.insert(format!("{a}:{}", &got[..got.find(':').unwrap_or(got.len().min(12))]));
+        // summary of what the settings decide (so that the variants are known to matter)
+        if got.contains("signingCredential.trusted") {
+            run.count("read_trusted");
+        } else if got.contains("signingCredential.untrusted") {
+            run.count("read_untrusted");
+        } else {
+            run.count("read_other");
+        }
+        prev = Some((a, v));
+    }
+    run.notes.push(format!("settings histories: {compared} reads equal to their fresh-process reference, {} (asset, variant) references", reference.len()));
+    // the variants must matter: some asset is trusted under one variant and untrusted under another
+    let matter = (0..assets.len()).any(|a| {
+        let outs: std::collections::HashSet<bool> = reference.iter().filter(|((ra, _), _)| *ra == a).map(|(_, r)| r.contains("signingCredential.trusted")).collect();
+        outs.len() == 2
+    });
+    run.obligations.insert("trust-settings-variants-change-some-report".to_string(), matter);
+}
+
+/// A local RFC 3161 authority behind the context's HTTP resolver (`openssl ts -reply`).
+struct Tsa {
+    pki: Arc<pki::Pki>,
+    tsa: pki::Cred,
+    root: pki::Cred,
+    n: std::sync::atomic::AtomicU32,
+}
+
+impl SyncHttpResolver for Tsa {
+    fn http_resolve(&self, request: Request<Vec<u8>>) -> Result<Response<Box<dyn Read>>, HttpResolverError> {
+        let k = self.n.fetch_add(1, std::sync::atomic::Ordering::SeqCst);
+        let (q, r) = (self.pki.dir.join(format!("c38q{k}.tsq")), self.pki.dir.join(format!("c38r{k}.tsr")));
+        std::fs::write(&q, request.body()).map_err(HttpResolverError::Io)?;
+        let (ok, err) = self.pki.openssl(&[
+            "ts", "-reply", "-config", "ca.cnf", "-section", "tsa_acc1", "-queryfile", q.to_str().unwrap_or(""), "-signer",
+            self.tsa.cert.to_str().unwrap_or(""), "-inkey", self.tsa.key.to_str().unwrap_or(""), "-chain", self.root.cert.to_str().unwrap_or(""),
+            "-out", r.to_str().unwrap_or(""),
+        ]);
+        if !ok {
+            return Err(HttpResolverError::Io(std::io::Error::other(err)));
+        }
+        let body = std::fs::read(&r).map_err(HttpResolverError::Io)?;
+        Response::builder()
+            .status(200)
+            .header(CONTENT_TYPE, "application/timestamp-reply")
+            .body(Box::new(Cursor::new(body)) as Box<dyn Read>)
+            .map_err(HttpResolverError::Http)
+    }
+}
+
+/// Signer that names a time authority (so that the Builder adds time-stamp ASSERTIONS through the
+/// context's resolver) but does not time-stamp its own signature.
+struct TsSigner(EphemeralSigner);
+
+impl Signer for TsSigner {
+    fn sign(&self, data: &[u8]) -> c2pa::Result<Vec<u8>> {
+        self.0.sign(data)
+    }
+
+    fn alg(&self) -> SigningAlg {
+        self.0.alg()
+    }
+
+    fn certs(&self) -> c2pa::Result<Vec<Vec<u8>>> {
+        self.0.certs()
+    }
+
+    fn reserve_size(&self) -> usize {
+        self.0.reserve_size()
+    }
+
+    fn time_authority_url(&self) -> Option<String> {
+        Some("http://tsa.verif.invalid/".to_string())
+    }
+
+    fn send_timestamp_request(&self, _message: &[u8]) -> Option<c2pa::Result<Vec<u8>>> {
+        None
+    }
+}
+
+/// Part 5: two time-stamp assertions (in two different later manifests) that name the SAME earlier
+/// manifest with different, equally valid tokens. `Store::get_store_validation_info` iterates
+/// `svi.manifest_map.values()` (a `HashMap`) and lets the assertion visited last win; the winner's
+/// time becomes `signature_info.time` of the earlier manifest in the report.
+fn timestamp_order(run: &mut Run, dir: &std::path::Path) {
+    let pdir = dir.join("pki");
+    let pk = Arc::new(pki::Pki::new(&pdir));
+    let root = pk.root("c38-root");
+    let day = 86_400;
+    let tsa = pk.issue(&root, "c38-tsa", "v3_tsa", pki::now() - day, pki::now() + 30 * day);
+    let root_pem = String::from_utf8_lossy(&root.cert_pem()).to_string();
+    let jpg = std::fs::read(fixtures().join("IMG_0003.jpg")).unwrap_or_default();
+    let edit = |src: &[u8], scope: &str| -> Result<Vec<u8>, String> {
+        let s = serde_json::json!({
+            "verify": {"remote_manifest_fetch": false, "ocsp_fetch": false},
+            "builder": {"auto_timestamp_assertion": {"enabled": true, "skip_existing": false, "fetch_scope": scope}}
+        })
+        .to_string();
+        let ctx = Context::new()
+            .with_settings(s.as_str())
+            .map_err(|e| format!("{e:?}"))?
+            .with_resolver(Tsa { pki: pk.clone(), tsa: tsa.clone(), root: root.clone(), n: Default::default() })
+            .with_signer(TsSigner(EphemeralSigner::new("verif.test").map_err(|e| format!("{e:?}"))?));
+        let d = serde_json::json!({"title": "c38-ts", "format": "image/jpeg", "claim_generator_info": [{"name": "verif-harness", "version": "0.1"}]}).to_string();
+        let mut b = Builder::from_context(ctx).with_definition(d.as_str()).map_err(|e| format!("{e:?}"))?;
+        b.set_intent(BuilderIntent::Edit);
+        let mut out = Cursor::new(Vec::new());
+        b.save_to_stream("image/jpeg", &mut Cursor::new(src.to_vec()), &mut out).map_err(|e| format!("{e:?}"))?;
+        Ok(out.into_inner())
+    };
+    // the FIRST manifest is signed with a certificate that expires a few seconds later; the first
+    // time-stamp assertion (made at once) puts its signature inside the validity, the second one
+    // (made after the expiry) outside
+    let t0 = pki::now();
+    let expiry = t0 + 12;
+    let leaf = pk.issue(&root, "c38-leaf", "v3_sign", t0 - 3600, expiry);
+    let mut armed = false;
+    let built = (|| -> Result<Vec<u8>, String> {
+        let mut chain = leaf.cert_pem();
+        chain.extend_from_slice(&root.cert_pem());
+        let signer0 = c2pa::create_signer::from_keys(&chain, &leaf.key_pem(), SigningAlg::Es256, None).map_err(|e| format!("leaf signer: {e:?}"))?;
+        let ctx0 = Context::new().with_settings(cc::base_settings().as_str()).map_err(|e| format!("{e:?}"))?.with_signer(signer0);
+        let mut b = Builder::from_context(ctx0).with_definition(definition("c38-ts0", "image/jpeg").as_str()).map_err(|e| format!("{e:?}"))?;
+        let mut out = Cursor::new(Vec::new());
+        b.save_to_stream("image/jpeg", &mut Cursor::new(jpg.clone()), &mut out).map_err(|e| format!("first manifest: {e:?}"))?;
+        let a1 = edit(&out.into_inner(), "parent")?;
+        let first_done = pki::now();
+        while pki::now() <= expiry + 1 {
+            std::thread::sleep(std::time::Duration::from_millis(200));
+        }
+        armed = first_done < expiry;
+        edit(&a1, "all")
+    })();
+    let asset = match built {
+        Ok(a) => a,
+        Err(e) => {
+            run.notes.push(format!("time-stamp order case could not be built: {e}"));
+            run.obligations.insert("timestamp-order-case-built".to_string(), false);
+            return;
+        }
+    };
+    run.obligations.insert("timestamp-order-case-built".to_string(), true);
+    let settings = serde_json::json!({"verify": {"remote_manifest_fetch": false, "ocsp_fetch": false}, "trust": {"trust_anchors": root_pem}}).to_string();
+    // what the report says about the signing credential of each manifest (failure codes of the
+    // active manifest and of the ingredient deltas)
+    let times = |rep: &str| -> Vec<String> {
+        let v: serde_json::Value = rep.find(':').and_then(|k| serde_json::from_str(&rep[k + 1..]).ok()).unwrap_or_default();
+        let mut t: Vec<String> = vec![];
+        fn walk(v: &serde_json::Value, under_failure: bool, out: &mut Vec<String>) {
+            match v {
+                serde_json::Value::Object(m) => {
+                    if under_failure {
+                        if let Some(c) = m.get("code").and_then(|c| c.as_str()) {
+                            out.push(c.to_string());
+                        }
+                    }
+                    for (k, x) in m {
+                        walk(x, under_failure || k == "failure", out);
+                    }
+                }
+                serde_json::Value::Array(a) => a.iter().for_each(|x| walk(x, under_failure, out)),
+                _ => {}
+            }
+        }
+        walk(&v["validation_results"], false, &mut t);
+        t.sort();
+        t.insert(0, rep.split(':').next().unwrap_or("").to_string());
+        t
+    };
+    let sp = dir.join("ts-settings.json");
+    let ap = dir.join("ts-asset.jpg");
+    let _ = std::fs::write(&sp, &settings);
+    let _ = std::fs::write(&ap, &asset);
+    let mut seen: std::collections::BTreeMap<String, usize> = std::collections::BTreeMap::new();
+    let mut reports: std::collections::HashSet<String> = std::collections::HashSet::new();
+    let n_in = if run.thorough() { 40 } else { 16 };
+    for _ in 0..n_in {
+        let rep = report_with(&settings, "image/jpeg", &asset);
+        *seen.entry(times(&rep).join(",")).or_default() += 1;
+        reports.insert(rep);
+    }
+    let n_fresh = if run.thorough() { 12 } else { 6 };
+    let mut fresh: std::collections::HashSet<String> = std::collections::HashSet::new();
+    for _ in 0..n_fresh {
+        let rep = child(&["report3", &sp.to_string_lossy(), "image/jpeg", &ap.to_string_lossy()]);
+        *seen.entry(times(&rep).join(",")).or_default() += 1;
+        fresh.insert(rep);
+    }
+    run.notes.push(format!("time-stamp order case: state + failure codes seen over {n_in} in-process and {n_fresh} fresh-process reads of the same bytes: {seen:?}"));
+    if let Some(rep) = reports.iter().next() {
+        let mut hits: Vec<&str> = vec![];
+        for pat in ["timeStamp.validated", "timeStamp.untrusted", "timeStamp.mismatch", "timeStamp.malformed", "timeStamp.outsideValidity", "c2pa.time-stamp"] {
+            if rep.contains(pat) {
+                hits.push(pat);
+            }
+        }
+        run.notes.push(format!("time-stamp order case: report mentions {hits:?}"));
+    }
+    run.notes.push(format!("time-stamp order case armed (first token inside, second outside the first signer's validity): {armed}"));
+    // where two reports of the same bytes differ (JSON leaf paths)
+    fn diff(a: &serde_json::Value, b: &serde_json::Value, path: &str, out: &mut Vec<String>) {
+        match (a, b) {
+            (serde_json::Value::Object(x), serde_json::Value::Object(y)) => {
+                let keys: std::collections::BTreeSet<&String> = x.keys().chain(y.keys()).collect();
+                for k in keys {
+                    diff(x.get(k).unwrap_or(&serde_json::Value::Null), y.get(k).unwrap_or(&serde_json::Value::Null), &format!("{path}/{k}"), out);
+                }
+            }
+            (serde_json::Value::Array(x), serde_json::Value::Array(y)) if x.len() == y.len() => {
+                for (i, (p, q)) in x.iter().zip(y).enumerate() {
+                    diff(p, q, &format!("{path}/{i}"), out);
+                }
+            }
+            (serde_json::Value::Array(x), serde_json::Value::Array(y)) => {
+                let (xs, ys): (Vec<String>, Vec<String>) = (x.iter().map(vh::common::canon_json).collect(), y.iter().map(vh::common::canon_json).collect());
+                for e in xs.iter().filter(|e| !ys.contains(e)) {
+                    out.push(format!("{path}: only in one report: {}", &e[..e.len().min(420)]));
+                }
+                for e in ys.iter().filter(|e| !xs.contains(e)) {
+                    out.push(format!("{path}: only in the other: {}", &e[..e.len().min(420)]));
+                }
+            }
+            _ if a != b => out.push(format!("{path}: {} <> {}", &a.to_string()[..a.to_string().len().min(90)], &b.to_string()[..b.to_string().len().min(90)])),
+            _ => {}
+        }
+    }
+    let all: Vec<&String> = reports.iter().chain(fresh.iter()).collect();
+    let mut where_: Vec<String> = vec![];
+    if let Some(other) = all.iter().find(|r| **r != all[0]) {
+        let j = |r: &str| -> serde_json::Value { r.find(':').and_then(|k| serde_json::from_str(&r[k + 1..]).ok()).unwrap_or_default() };
+        diff(&j(all[0]), &j(other), "", &mut where_);
+    }
+    let idx = run.reqs.len().saturating_sub(1);
+    if reports.len() > 1 || fresh.len() > 1 || reports != fresh {
+        run.fail(
+            idx,
+            "timestamp-assertion-winner-depends-on-hash-order",
+            format!("the same bytes read with the same settings give {} different reports in one process and {} in fresh processes; state + failure codes seen: {seen:?}; reports differ at: {where_:?}", reports.len(), fresh.len()),
+        );
+    } else {
+        run.nontrivial("timestamp-order-stable".into());
+    }
+}
+
+/// Part 3: replay the Lean witnesses on the implementation (each on a fresh thread).
+fn witnesses(run: &mut Run) {
+    let jpg = std::fs::read(fixtures().join("IMG_0003.jpg")).unwrap_or_default();
+    let signed = sign(&cc::base_settings(), "image/jpeg", &jpg, None, false).ok();
+    // (i) `tls_history_visible`: the legacy API reads the thread-local settings, so an earlier legacy write shows
+    if let Some(a) = signed {
+        let seen = std::thread::spawn(move || {
+            let legacy = |d: &[u8]| cc::report_of(Reader::from_stream("image/jpeg", Cursor::new(d.to_vec())));
+            let r0 = legacy(&a);
+            let _ = Settings::from_string(r#"{"verify":{"verify_after_reading":false}}"#, "json");
+            let r1 = legacy(&a);
+            r0 != r1
+        })
+        .join()
+        .unwrap_or(false);
+        run.obligations.insert("witness-replayed:legacy-api-depends-on-earlier-legacy-settings-write".to_string(), seen);
+    }
+    // (ii) `context_read_depends_on_tls`: a context-based read must NOT, but does for this asset
+    match cc::bmff_compressed_update_asset() {
+        Ok(asset) => {
+            let (alone, after) = std::thread::spawn(move || {
+                let alone = cc::leaky_read_allows(&asset);
+                cc::set_tls(400); // even: decompression cap 0 in the THREAD-LOCAL settings
+                (alone, cc::leaky_read_allows(&asset))
+            })
+            .join()
+            .unwrap_or((false, false));
+            run.notes.push(format!("crafted BMFF asset, context-based read gets past decompression: fresh thread {alone}, after a legacy cap-0 write {after}"));
+            if alone != after {
+                let idx = run.reqs.len().saturating_sub(1);
+                run.fail(idx, "context-read-depends-on-thread-local-settings", "a context-based read (default context settings) of a BMFF asset with original+update stores, original store brotli-compressed: fresh thread gets past the decompression, the same read after `Settings::from_string({core.max_decompressed_manifest_size_in_mb:0})` on that thread fails with JumbfParseError (BmffIO::read_cai -> Store::from_jumbf reads the thread-local cap)".to_string());
+            } else {
+                run.nontrivial("leaky-read-witness-not-reproduced".into());
+            }
+        }
+        Err(e) => run.notes.push(format!("crafted BMFF asset not available: {e}")),
+    }
+}
+
 pub fn run(run: &mut Run, rng: &mut Rng) {
-    run.rule = "one process executes a random sequence (quick 14, thorough 60 steps) of sign (plain / with ingredient / through archive save+restore), read of fixtures with failures, legacy thread-local settings writes and context settings variations; every produced asset is read right after creation, again at the end, and in a fresh process (child `report`), and the canonical reports compared; the same source is signed at the start and at the end and the abstracted reports compared. non-trivial = a produced asset whose three reads were compared; distinct by step".to_string();
+    run.rule = "(1) one process executes a random sequence (quick 14, thorough 60 steps) of sign (plain / with ingredient / through archive save+restore), read of fixtures with failures, legacy thread-local settings writes and context settings variations; every produced asset is read right after creation, again at the end, and in a fresh process (child `report`), and the canonical reports compared; the same source is signed at the start and at the end and the abstracted reports compared. (2) 120 / 700 reads on one thread of 5 assets under 11 settings variants (each trust setting separately), each compared with a fresh-process read of the same bytes under the same settings; non-trivial = consecutive reads of the same asset under different variants. (3) witness replays. (4) model history cases over real contexts".to_string();
     let dir = scratch("c38");
     let sources: Vec<(String, Vec<u8>)> = unsigned_sources()
         .into_iter()
@@ -148,22 +488,24 @@ pub fn run(run: &mut Run, rng: &mut Rng) {
         run.notes.push("no sources".into());
         return;
     }
-    let tls_before = c2pa::verif_hooks::c25::thread_local_value();
+    let base = cc::base_settings();
 
     // reference signing of the first source, before anything else ran
     let (f0, s0) = sources[0].clone();
-    let first = guarded(|| sign(settings_json(), &f0, &s0, None, false));
-    let first_rep = first.as_ref().ok().and_then(|r| r.as_ref().ok()).map(|a| abstract_report(&report(&f0, a)));
+    let first = guarded(|| sign(&base, &f0, &s0, None, false));
+    let first_rep = first.as_ref().ok().and_then(|r| r.as_ref().ok()).map(|a| cc::abstract_report(&report(&f0, a)));
 
     let steps = if run.thorough() { 60 } else { 14 };
     let mut produced: Vec<(String, std::path::PathBuf, String)> = vec![]; // fmt, path, report right after creation
     let mut fixture_reports: Vec<(usize, String)> = vec![];
+    let poisons = cc::poisons();
     for step in 0..steps {
         match rng.below(7) {
             0 => {
-                // legacy thread-local settings write (must not influence context-based operations)
-                let v = rng.range(1, 9);
-                let _ = Settings::from_string(&format!(r#"{{"core":{{"merkle_tree_max_proofs":{v}}},"verify":{{"verify_trust":{}}}}}"#, rng.chance(1, 2)), "json");
+                // legacy thread-local settings write (must not influence context-based operations):
+                // values that would change results if a context path consulted them
+                let p = rng.pick(&poisons).clone();
+                let _ = Settings::from_string(&p, "json");
                 run.count("legacy_settings_write");
             }
             1 => {
@@ -188,11 +530,11 @@ pub fn run(run: &mut Run, rng: &mut Rng) {
                 let ing = if k == 3 || k == 4 { produced.last().and_then(|(f, p, _)| std::fs::read(p).ok().map(|d| (f.clone(), d))) } else { None };
                 let via_archive = k == 5;
                 let ctx_settings = if rng.chance(1, 3) {
-                    r#"{"verify":{"remote_manifest_fetch":false,"ocsp_fetch":false},"core":{"merkle_tree_max_proofs":7}}"#
+                    format!(r#"{{"verify":{{{}}},"core":{{"merkle_tree_max_proofs":7}}}}"#, cc::NOFETCH)
                 } else {
-                    settings_json()
+                    base.clone()
                 };
-                let res = guarded(|| sign(ctx_settings, &fmt, &src, ing.as_ref().map(|(f, d)| (f.as_str(), d.as_slice())), via_archive));
+                let res = guarded(|| sign(&ctx_settings, &fmt, &src, ing.as_ref().map(|(f, d)| (f.as_str(), d.as_slice())), via_archive));
                 match res {
                     Ok(Ok(asset)) => {
                         let path = dir.join(format!("a{step}.bin"));
@@ -245,50 +587,59 @@ pub fn run(run: &mut Run, rng: &mut Rng) {
         }
     }
     // signing the first source again after all that
-    let last = guarded(|| sign(settings_json(), &f0, &s0, None, false));
-    let last_rep = last.as_ref().ok().and_then(|r| r.as_ref().ok()).map(|a| abstract_report(&report(&f0, a)));
+    let last = guarded(|| sign(&base, &f0, &s0, None, false));
+    let last_rep = last.as_ref().ok().and_then(|r| r.as_ref().ok()).map(|a| cc::abstract_report(&report(&f0, a)));
     let idx = run.reqs.len().saturating_sub(1);
     match (&first_rep, &last_rep) {
         (Some(a), Some(b)) if a == b => run.nontrivial("sign-first-vs-last".into()),
         (Some(a), Some(b)) => run.fail(idx, "signing-depends-on-history", format!("abstracted report of the same source signed first and last differ: {} … vs {} …", &a[..a.len().min(120)], &b[..b.len().min(120)])),
         _ => run.notes.push("reference signing failed".into()),
     }
-    // context-based operations must not have written the legacy thread-local settings other than
-    // through the explicit legacy writes of this sequence: compare with a replay of those writes
-    let _ = tls_before;
     run.obligations.insert("produced-assets-compared".to_string(), !produced.is_empty());
     run.notes.push(format!("produced assets: {}, fixtures re-read: {}", produced.len(), fixture_reports.len()));
+
+    settings_histories(run, rng, &dir);
+    witnesses(run);
+    timestamp_order(run, &dir);
     let _ = std::fs::remove_dir_all(&dir);
 
-    // model-level history cases: answered by Model/C38.lean (wraps the C24 state model)
-    let n = if run.thorough() { 4000 } else { 600 };
+    // model-level history cases: answered by Model/C38.lean (wraps the C24 state model); one thread
+    // (this one, thread-local number 200 at the start of every case)
+    let leaky = cc::bmff_compressed_update_asset().ok();
+    let n = if run.thorough() { 3000 } else { 400 };
     for _ in 0..n {
         let mut r = rng.fork();
         let nctx = 3usize;
         let len = r.below(6) as usize;
         let probe_ctx = r.below(nctx as u64) as usize;
         let other: Vec<usize> = (0..nctx).filter(|c| *c != probe_ctx).collect();
+        // harmless histories (the theorem's hypothesis): anything on other contexts, safe
+        // operations on the probe's context, legacy settings writes
         let hist: Vec<String> = (0..len)
             .map(|_| {
                 let c = *r.pick(&other);
-                match r.below(4) {
+                match r.below(8) {
                     0 => format!("ca:{c}"),
                     1 => format!("gr:{c}:{}", r.range(1, 99)),
                     2 => format!("cp:{c}"),
+                    3 => format!("cp:{probe_ctx}"),
+                    4 => format!("gss:{probe_ctx}"),
+                    5 => format!("grs:{probe_ctx}"),
                     _ => format!("st:0:{}", r.range(400, 499)),
                 }
             })
             .collect();
-        let probe = match r.below(3) {
+        let probe = match r.below(7) {
             0 => format!("cp:{probe_ctx}"),
             1 => format!("rs:{probe_ctx}"),
-            _ => format!("gr:{probe_ctx}:55"),
+            2 => format!("gr:{probe_ctx}:55"),
+            3 => format!("gss:{probe_ctx}"),
+            4 => format!("grs:{probe_ctx}"),
+            5 => "rt:0".to_string(),
+            _ => if leaky.is_some() { "lr:0".to_string() } else { format!("rs:{probe_ctx}") },
         };
-        // implementation: real contexts
-        let ctxs: Vec<Context> = (0..nctx)
-            .map(|i| Context::new().with_settings(format!(r#"{{"core":{{"merkle_tree_max_proofs":{}}}}}"#, 100 + i).as_str()).expect("ctx"))
-            .collect();
-        let exec = |op: &str, ctxs: &Vec<Context>| -> String {
+        let mk = || -> Vec<Context> { (0..nctx).map(|i| Context::new().with_settings(format!(r#"{{"core":{{"merkle_tree_max_proofs":{}}}}}"#, 100 + i).as_str()).expect("ctx")).collect() };
+        let exec = |op: &str, ctxs: &Vec<Context>, first_resolver: &mut Vec<Option<String>>| -> String {
             let parts: Vec<&str> = op.split(':').collect();
             let c: usize = parts[1].parse().unwrap_or(0);
             match parts[0] {
@@ -298,34 +649,64 @@ pub fn run(run: &mut Run, rng: &mut Rng) {
                 }
                 "cp" => if ctxs[c].is_cancelled() { "T".into() } else { "F".into() },
                 "rs" => ctxs[c].settings().get_value::<u64>("core.merkle_tree_max_proofs").map(|v| v.to_string()).unwrap_or("x".into()),
-                "gr" => {
+                "gr" | "grs" => {
                     let _ = ctxs[c].resolver();
-                    parts[2].to_string()
+                    let offered = if parts[0] == "gr" { parts[2].to_string() } else { (100 + c).to_string() };
+                    first_resolver[c].get_or_insert(offered).clone()
                 }
+                // no signer in these settings: the lazily created cell holds "missing signer settings",
+                // a function of the context's settings, for every caller
+                "gss" => match ctxs[c].signer() {
+                    Err(c2pa::Error::MissingSignerSettings) => (100 + c).to_string(),
+                    _ => "signer-unexpected".into(),
+                },
                 "st" => {
-                    let _ = Settings::from_string(&format!(r#"{{"core":{{"merkle_tree_max_proofs":{}}}}}"#, parts[2]), "json");
+                    cc::set_tls(parts[2].parse().unwrap_or(0));
                     "u".into()
                 }
+                "rt" => cc::tls_value(),
+                "lr" => match &leaky {
+                    Some(a) => if cc::leaky_read_allows(a) { "T".into() } else { "F".into() },
+                    None => "x".into(),
+                },
                 _ => "x".into(),
             }
         };
-        let alone = {
-            let fresh: Vec<Context> = (0..nctx)
-                .map(|i| Context::new().with_settings(format!(r#"{{"core":{{"merkle_tree_max_proofs":{}}}}}"#, 100 + i).as_str()).expect("ctx"))
-                .collect();
-            exec(&probe, &fresh)
-        };
+        cc::set_tls(200);
+        let alone = exec(&probe, &mk(), &mut vec![None; nctx]);
+        cc::set_tls(200);
+        let ctxs = mk();
+        let mut seen = vec![None; nctx];
         for h in &hist {
-            exec(h, &ctxs);
+            exec(h, &ctxs, &mut seen);
         }
-        let after = exec(&probe, &ctxs);
+        let after = exec(&probe, &ctxs, &mut seen);
         let req = format!("C38 hist ops={} probe={probe} nctx={nctx}", if hist.is_empty() { "-".to_string() } else { hist.join(",") });
         if !hist.is_empty() {
             run.nontrivial(req.clone());
         }
         let idx = run.case(req, format!("{after}|{alone}"));
-        if after != alone {
-            run.fail(idx, "operation-depends-on-unrelated-history", format!("probe {probe} gives {after} after history {hist:?} but {alone} alone"));
+        // the theorem's hypothesis (`ProgsCompat hist [probe]`): every history op touches another
+        // cell than the probe, or both are shared-safe operations
+        let cell = |op: &str| -> (u8, String) {
+            let p: Vec<&str> = op.split(':').collect();
+            (if matches!(p[0], "st" | "rt" | "lr") { 1 } else { 0 }, p[1].to_string())
+        };
+        let safe = |op: &str| matches!(op.split(':').next().unwrap_or(""), "cp" | "rs" | "gss" | "grs" | "rt" | "lr");
+        let hypothesis = hist.iter().all(|h| cell(h) != cell(&probe) || (safe(h) && safe(&probe)));
+        if !hypothesis {
+            run.count("hist_outside_hypothesis");
+        }
+        if after != alone && hypothesis {
+            if probe.starts_with("rt") {
+                // the legacy thread-local value IS what legacy writes change: by design
+                run.count("legacy_probe_sees_legacy_write");
+            } else if probe.starts_with("lr") {
+                run.fail(idx, "context-read-depends-on-thread-local-settings", format!("context-based read of the crafted BMFF asset: {after} after history {hist:?} but {alone} alone"));
+            } else {
+                run.fail(idx, "operation-depends-on-unrelated-history", format!("probe {probe} gives {after} after history {hist:?} but {alone} alone"));
+            }
         }
     }
+    cc::set_tls(200);
 }
